@@ -38,7 +38,10 @@ def spec_unscheduled(h, d, U):
     operation (j, p) sits at index  sum_{j'<j} (L_j' - k_j') + (p - k_j)"""
     D = Disp(h, d)
     j, p = bv("j"), bv("p")
+    r = bv("ru")
     return [("result-list", z3.And(U > 0, U < h.alloc)),
+            ("elements-are-unscheduled-operations", forall([r], imp(rng(r, 0, h.len(U)), z3.And(
+                D.it.is_op(h.at(U, r)), D.it.pos(h.at(U, r)) >= D.kj(D.it.jid(h.at(U, r))))), patterns=[h.at(U, r)])),
             ("as-many-as-not-scheduled", h.len(U) == D.it.N - D.n),
             ("each-unscheduled-operation-at-its-place", forall([j, p], imp(
                 z3.And(rng(j, 0, D.it.J), rng(p, D.kj(j), D.it.L(j))),
@@ -143,11 +146,24 @@ def cache_values_old_or_fresh(h0, h, d):
     return [("cached-values-old-or-fresh", z3.And(out))]
 
 
+def cached_entries_kept(h0, h, d):
+    """the cache is write-once between invalidations: an entry present before a query is the same
+    entry afterwards (the wrapper only stores under an absent key)"""
+    return [("cached-entries-kept", z3.And([
+        imp(h0.get(f"$cache_has:{k}", d) != 0, z3.And(h.get(f"$cache_has:{k}", d) != 0,
+                                                       h.get(f"$cache_val:{k}", d) == h0.get(f"$cache_val:{k}", d)))
+        for k in CACHED]))]
+
+
+def cache_effect(h0, h, d):
+    return cache_values_old_or_fresh(h0, h, d) + cached_entries_kept(h0, h, d)
+
+
 _Q_CLAUSES = ["result-are-operations", "result-are-ready", "result-in-job-order", "every-unfinished-job-is-represented",
               "result-list", "as-many-as-not-scheduled", "each-unscheduled-operation-at-its-place",
               "as-many-as-scheduled", "each-scheduled-operation-at-its-place",
               "non-empty-while-some-job-is-unfinished", "all-ready-operations-without-filter",
-              "unfiltered-current-time", "placed-so-far"]
+              "unfiltered-current-time", "placed-so-far", "elements-so-far", "elements-are-unscheduled-operations"]
 _Q_REL = {n: SHAPE + ["R9-count-per-machine", "R9-count-per-job", "R9-count-per-job-monotone", "R9-counts-agree",
                       "R9-deficit-monotone", "inst-cum",
                       "inst-cum-monotone", "inst-machines"] for n in _Q_CLAUSES}
@@ -173,7 +189,7 @@ class _Raw(Contract):
         if ty.kind == "list":
             fresh_or_cached = [("result-is-a-cached-list-or-new", _old_or_fresh(c.h0, c["self"], c.result))]
         return spec(c.h, c["self"], c.result) + cache_ok(c.h, c["self"]) + \
-            cache_values_old_or_fresh(c.h0, c.h, c["self"]) + fresh_or_cached
+            cache_effect(c.h0, c.h, c["self"]) + fresh_or_cached
 
 
 class _Cached(Contract):
@@ -214,8 +230,12 @@ class _Cached(Contract):
         fresh_or_cached = []
         if ty.kind == "list":
             fresh_or_cached = [("result-is-a-cached-list-or-new", _old_or_fresh(c.h0, c["self"], c.result))]
+        from pyvc.values import to_int
+        stored = [("entry-is-cached-afterwards", z3.And(
+            c.h.get(f"$cache_has:{self.key}", c["self"]) != 0,
+            c.h.get(f"$cache_val:{self.key}", c["self"]) == to_int(c.res)))]
         return spec(c.h, c["self"], c.result) + cache_ok(c.h, c["self"]) + \
-            cache_values_old_or_fresh(c.h0, c.h, c["self"]) + fresh_or_cached
+            cache_effect(c.h0, c.h, c["self"]) + fresh_or_cached + stored
 
 
 def make(key):
@@ -249,7 +269,12 @@ def _slice_loop(list_name, scheduled):
             placed = forall([j, p], imp(z3.And(rng(j, 0, k.i), rng(p, D.kj(j), D.it.L(j))),
                                         h.at(U, D.it.cumL(j) - D.cumK(j) + p - D.kj(j)) == D.it.op(j, p)),
                             patterns=[D.it.op(j, p)])
+        r = bv("ru")
+        elems = forall([r], imp(rng(r, 0, h.len(U)), z3.And(
+            D.it.is_op(h.at(U, r)), (D.it.pos(h.at(U, r)) < D.kj(D.it.jid(h.at(U, r)))) if scheduled
+            else (D.it.pos(h.at(U, r)) >= D.kj(D.it.jid(h.at(U, r)))))), patterns=[h.at(U, r)])
         return [("result-list", z3.And(U >= h0.alloc, U < h.alloc, h.len(U) == size)),
+                ("elements-so-far", elems),
                 ("placed-so-far", placed)] + reach(h, d)
 
     def mod(k):
@@ -298,7 +323,7 @@ class OngoingAbstract(Contract):
         D = Disp(h, c["self"])
         return [("scheduled-operations", z3.And(L > 0, L < h.alloc, forall([r], imp(rng(r, 0, h.len(L)), z3.And(
             h.at(L, r) > 0, h.at(L, r) < h.alloc, D.it.is_op(D.opx(h.at(L, r))))), patterns=[h.at(L, r)])))] \
-            + cache_ok(h, c["self"]) + reach(h, c["self"]) + cache_values_old_or_fresh(c.h0, h, c["self"])
+            + cache_ok(h, c["self"]) + reach(h, c["self"]) + cache_effect(c.h0, h, c["self"])
 
 
 @register
@@ -323,7 +348,7 @@ class UncompletedRaw(Contract):
 
     def ensures(self, c):
         return [("result-is-a-new-list", z3.And(c.result >= c.h0.alloc, c.result < c.h.alloc))] + \
-            cache_ok(c.h, c["self"]) + cache_values_old_or_fresh(c.h0, c.h, c["self"])
+            cache_ok(c.h, c["self"]) + cache_effect(c.h0, c.h, c["self"])
 
 
 def install_cache_contracts():
